@@ -77,7 +77,7 @@ func main() {
 		},
 		Budget: func(run *core.Run) time.Duration {
 			if run.Quick() {
-				return 60 * time.Second
+				return 150 * time.Second
 			}
 			return 12 * time.Minute
 		},
@@ -92,8 +92,11 @@ func main() {
 // validator by a fully adversarial environment (the harness holds the other
 // three keys).  States are deduplicated by (round-state digest, monitor lock).
 func soloDriver(run *core.Run, cov core.Coverage) {
-	rounds := run.Pick(2, 3)
-	deadline := time.Now().Add(time.Duration(run.Pick(40, 420)) * time.Second)
+	// rounds 0-1 (thorough 0-2) with the wide per-round menus, two further rounds with the narrow menu
+	// (a lock taken in round 1 or renewed in round 2 must survive the late polka of an earlier round)
+	wideRounds := run.Pick(2, 3)
+	rounds := wideRounds + 2
+	deadline := time.Now().Add(time.Duration(run.Pick(150, 540)) * time.Second)
 	type st struct {
 		steps  []consnet.SoloStep
 		lock   string
@@ -108,12 +111,28 @@ func soloDriver(run *core.Run, cov core.Coverage) {
 	for r := 0; r < rounds; r++ {
 		var scs []*consnet.Scenario
 		for _, f := range frontier {
-			if r > 0 && f.lock == "" && (run.Quick() || r > 1) {
-				continue // deeper rounds: only states that hold a lock are expanded (the discipline under test)
-			}
-			scripts := consnet.SoloRoundScripts(int64(r), r > 0)
-			if !run.Quick() {
+			var scripts [][]consnet.SoloStep
+			narrow := r >= wideRounds || (run.Quick() && r > 0)
+			switch {
+			case narrow:
+				// narrow menu: from round 2 on the whole narrow menu for states whose lock was taken or renewed in
+				// the round before (a lock of round r-1 facing the late polka of an earlier round is the history
+				// these rounds are for), three scripts for older locks
+				if r > 1 && f.lock == "" {
+					continue
+				}
+				scripts = consnet.SoloNarrowScripts(int64(r))
+				if r > 1 && !strings.HasPrefix(f.lock, fmt.Sprintf("%d/", r-1)) {
+					// an older lock: only idle / renew / the other block's polka
+					scripts = [][]consnet.SoloStep{scripts[0], scripts[3], scripts[4]}
+				}
+			case r > 1 && f.lock == "":
+				continue // wide menus in deeper rounds: only states that hold a lock are expanded (the discipline under test)
+			default:
 				scripts = consnet.SoloRoundScriptsLate(int64(r), r > 0)
+				if run.Quick() {
+					scripts = consnet.SoloRoundScripts(int64(r), r > 0)
+				}
 			}
 			for _, s := range scripts {
 				steps := append(append([]consnet.SoloStep{}, f.steps...), s...)
@@ -158,7 +177,7 @@ func soloDriver(run *core.Run, cov core.Coverage) {
 						if strings.HasSuffix(lock, "/") {
 							lock = ""
 						}
-						if o.Sc.Powers[3] == 1 && o.Sc.Powers[2] == 1 {
+						if o.Sc.Powers[3] == 1 && o.Sc.Powers[2] == 1 && (!run.Quick() || quickFrontier(o.Sc.Solo.Steps)) {
 							next = append(next, st{o.Sc.Solo.Steps, lock, o.Sc.Powers})
 						}
 					}
@@ -188,4 +207,25 @@ func soloDriver(run *core.Run, cov core.Coverage) {
 	if complete < rounds {
 		cov["exhaustive"] = false
 	}
+}
+
+// quickFrontier: the quick tier continues only from states reached by the core inputs (no precommits from
+// the others except all-nil, prevotes all-one-block, all-nil, split, or two of three for one block - the
+// incomplete polka a late vote can complete); every round-0 script is still executed and judged.
+func quickFrontier(steps []consnet.SoloStep) bool {
+	for _, s := range steps {
+		switch s.Kind {
+		case "prevotes":
+			switch s.Arg {
+			case "AAA", "BBB", "NNN", "ABN", "AA-", "BB-":
+			default:
+				return false
+			}
+		case "precommits":
+			if s.Arg != "NNN" {
+				return false
+			}
+		}
+	}
+	return true
 }
